@@ -201,6 +201,24 @@ def _lookup_opt(d, sites):
     return None
 
 
+def _missing_edges(F, b, lookups):
+    """CFG edges (from, to) taken exactly when a map lookup of `lookups` found no entry: the None edge of a discriminant
+    test of the lookup result, the Break edge of `lookup.ok_or(..)?`"""
+    out = set()
+    for br in branches(F, b):
+        if br.desc[0] != 'discr':
+            continue
+        x = br.desc[1]
+        if _lookup_opt(x, lookups) is not None:
+            if br.target(0) != br.target(1):
+                out.add((br.bb, br.target(0)))
+        elif isinstance(x, tuple) and x[0] == 'call' and x[1] in ('Option::ok_or', 'Option::ok_or_else') and len(x[3]) == 2 \
+                and _lookup_opt(x[3][0], lookups) is not None:
+            if br.target(0) != br.target(1):
+                out.add((br.bb, br.target(1)))
+    return out
+
+
 def missing_entry_refused(ctx, b, lookups, var):
     """every map lookup of `b` has its None outcome tied to the error `var`:
       * `lookup[.map(f)].ok_or(var)?` (or ok_or_else(|| var)): over the Break edge of the `?` only the residual of
@@ -291,6 +309,33 @@ def rule_a(ctx):
                   'every path to a return passes the %s test (refusing with %s) or already refuses by state' % (nm, what),
                   'Send::write can return an outcome that is not determined by the state of the half: a path reaches a return without the %s test '
                   '(e.g. Blocked/Ok for a half that must report %s): %s' % (nm, what, fmt_path(w, p) if tb else 'no such test found'))
+    # SendStream::write_source answers Blocked itself when the connection-level window is exhausted, without entering Send::write.
+    # That answer too must come after the state has had its say: every Blocked built there (other than the one for a closed
+    # CONNECTION, which is decided before any stream is looked up) is dominated by an is_writable test of the looked-up half whose
+    # false edge always refuses with ClosedStream and by a stop_reason test whose Some edge always refuses with Stopped(code),
+    # and is unreachable over those edges.
+    ws = ctx.pfn('SendStream::write_source')
+    wsrets = ws.return_blocks()
+    dws = describer(F, ws)
+    conn_closed = [(br.bb, tgt) for br, truth, tgt in bool_edges(ctx, ws, lambda x: x[0] == 'call' and x[1] == 'State::is_closed' and D.has_field(x, 'conn_state')) if truth]
+    blocked = [c for c in constructions(F, 'send::WriteError', 'Blocked', crate='quinn_proto') if c.body.id == ws.id
+               and not any(edge_dominates(ws, a, t, c.bb) for a, t in conn_closed)]
+    ctx.floor('a', 'write_source_flow_control_blocked_sites', len(blocked), 1)
+    ws_closed = effect_blocks(ctx, ws, variant=('WriteError', 'ClosedStream'))
+    ws_stopped = {c.bb for c in constructions(F, 'send::WriteError', 'Stopped', crate='quinn_proto') if c.body.id == ws.id
+                  and D.has_field(dws.operand(c.ops[0], c.bb, c.idx), 'stop_reason')}
+    of_half = lambda x: D.has_field(x, 'send')
+    wr_refusals = [(br, tgt) for br, truth, tgt in bool_edges(ctx, ws, lambda x: x[0] == 'call' and x[1] == 'Send::is_writable' and of_half(x))
+                   if truth is False and br.target(0) != br.target(1) and ws_closed and path_avoiding(ws, [tgt], wsrets, ws_closed) is None]
+    st_refusals = [(br, some) for br, some, none in option_tests(F, ws, lambda x: is_stop(x) and of_half(x))
+                   if some != none and ws_stopped and path_avoiding(ws, [some], wsrets, ws_stopped) is None]
+    for c in blocked:
+        for nm, refusals, what in (('is_writable', wr_refusals, 'ClosedStream'), ('stop_reason', st_refusals, 'Stopped(code)')):
+            ok = any(ws.dominates(br.bb, c.bb) and c.bb not in ws.reachable_from(tgt) for br, tgt in refusals)
+            ctx.check(ok, 'a', 'write_source_state_before_blocked', ws, c.where(),
+                      'Blocked only behind the %s test of the half (refusing with %s)' % (nm, what),
+                      'SendStream::write_source can answer Blocked (connection-level flow control) for a half that must report %s: no dominating '
+                      '%s test refuses first' % (what, nm))
     fin = ctx.pfn('Send::finish')
     frets = fin.return_blocks()
     cons = [c for c in constructions(F, 'FinishError', 'Stopped', crate='quinn_proto') if F.root_of(c.body).id == fin.id]
@@ -347,6 +392,47 @@ def rule_a(ctx):
         refused += [(b, t) for b, truth, t in bool_edges(ctx, rs, lambda x: x[0] == 'call' and x[1] == 'Send::is_reset') if truth]
     ok = bool(sr) and bool(closed) and all(any(rs.dominates(b.bb, s) and s not in rs.reachable_from(t) and path_avoiding(rs, [t], rrets, closed) is None for b, t in refused) for s in sr)
     ctx.check(ok, 'a', 'reset_twice_is_closed', rs, rs.where(), 'ResetSent -> Err(ClosedStream) before Send::reset', 'a redundant reset (state ResetSent) is no longer refused with ClosedStream before Send::reset')
+    # ... and ONLY then: reset of a half that exists succeeds in every other state (Ready, DataSent whatever was acknowledged).
+    # Every path entry -> return that does not perform Send::reset leaves over the ResetSent edge of such a state test or over
+    # the missing-entry edge of the map lookup; any other way out refuses (or skips) the reset on something that is not the state.
+    lookups = [c for c in rs.calls_to('HashMap::get_mut', 'HashMap::get') if D.has_field(arg_desc(F, c, 0), 'send')]
+    out_edges = {(b.bb, t) for b, t in refused} | _missing_edges(F, rs, lookups)
+    reach = rs.reachable_from(0, avoid=sr, avoid_edges=out_edges)
+    esc = [r for r in rrets if r in reach]
+    ctx.check(bool(sr) and bool(refused) and not esc, 'a', 'reset_refused_only_in_reset_sent', rs, rs.where(),
+              'a return without Send::reset only over the ResetSent edge / the missing-entry edge (%d edge(s))' % len(out_edges),
+              'SendStream::reset can return without resetting a stream whose state is not ResetSent (a refusal that depends on something other than '
+              'the state of the half, e.g. which frames were acknowledged)')
+    # SendStream::stopped: a half that was reset locally and that the peer had not stopped is closed (ClosedStream), not
+    # "not stopped" (Ok(None)).  Every site that answers Ok(<the half's stop_reason>) is reached only with the conjunction
+    # (state is ResetSent) AND (stop_reason is None) excluded: one of the two tests dominates it, the other one is asked on every
+    # path from the first's positive edge to the site, and over the second's positive edge the site is unreachable and
+    # ClosedStream is always built.
+    sp = ctx.pfn('SendStream::stopped')
+    sprets = sp.return_blocks()
+    dsp = describer(F, sp)
+    sp_closed = effect_blocks(ctx, sp, variant=('ClosedStream', 'ClosedStream'))
+    answers = [c for c in constructions(F, 'Result', 'Ok', crate='quinn_proto') if c.body.id == sp.id and c.ops
+               and D.has_field(dsp.operand(c.ops[0], c.bb, c.idx), 'stop_reason')]
+    ctx.floor('a', 'stopped_answer_sites', len(answers), 1)
+    reset_pos = []       # (branch block, target taken when the state is ResetSent)
+    for b in branches(F, sp):
+        vt = variant_test(F, b, STATE, is_state)
+        if vt and vt['ResetSent'] not in [t for v, t in vt.items() if v != 'ResetSent']:
+            reset_pos.append((b.bb, vt['ResetSent']))
+    if variant_predicate(F, irs, STATE, is_state) == {'ResetSent'}:
+        reset_pos += [(b.bb, t) for b, truth, t in bool_edges(ctx, sp, lambda x: x[0] == 'call' and x[1] == 'Send::is_reset') if truth and b.target(0) != b.target(1)]
+    none_pos = [(b.bb, none) for b, some, none in option_tests(F, sp, is_stop) if some != none]
+    for c in answers:
+        ok = False
+        for firsts, seconds in ((reset_pos, none_pos), (none_pos, reset_pos)):
+            for fb, ft in firsts:
+                for sb, st_ in seconds:
+                    if sp.dominates(fb, c.bb) and edge_dominates(sp, fb, ft, sb) and path_avoiding(sp, [ft], [c.bb], {sb}) is None \
+                            and c.bb not in sp.reachable_from(st_) and sp_closed and path_avoiding(sp, [st_], sprets, sp_closed) is None:
+                        ok = True
+        ctx.check(ok, 'a', 'stopped_after_local_reset_is_closed', sp, c.where(), 'Ok(stop_reason) only with (ResetSent and no stop reason) refused as ClosedStream',
+                  'SendStream::stopped can answer Ok(stop_reason) for a half that was reset locally and not stopped by the peer (must be ClosedStream)')
     # missing entry -> ClosedStream: the None outcome of the map lookup itself is what yields the error
     n = 0
     for fn, var in (('SendStream::write_source', ('WriteError', 'ClosedStream')), ('SendStream::finish', ('FinishError', 'ClosedStream')),
